@@ -91,6 +91,12 @@ func c04Gen(c *vfCtx, emit func(c04Case)) {
 		}
 		ydocs := []string{"a: 1\n", "a: 2", "a: 1\n---\nb: 2\n", "k: |\n  ---\n  t\n", "# c\na: $1\n", "- x\n- y\n"}
 		jdocs := []string{`{"a":1}`, `{"a":2}`, `[1,2,3]`, `{"k":"$1 %d ---"}`, `"x"`, `{"a":{"b":[1,{"c":null}]}}`}
+		// different JSON texts that decode to the same float64 / Go value: the update run replaces the text all the same
+		for _, api := range []string{"json", "sjson"} {
+			for _, pr := range [][2]string{{`{"id":1234567890123456789}`, `{"id":1234567890123456788}`}, {`9007199254740993`, `9007199254740992`}, {`[0.1]`, `[0.1000000000000000000001]`}, {`{"n":1.0}`, `{"n":1}`}, {`{"n":1e2}`, `{"n":100}`}} {
+				emit(c04Case{API: api, Mode: mode, Entries: []c04Entry{{Test: "TestA", Old: pr[0], New: pr[1]}, {Test: "TestA", Old: pr[1], New: pr[0]}}})
+			}
+		}
 		for api, docs := range map[string][]string{"yaml": ydocs, "json": jdocs, "sjson": jdocs} {
 			for _, o1 := range docs {
 				for _, n1 := range docs {
